@@ -7,6 +7,7 @@ from tools import cluster
 def run(ctx):
     v = vlib.Verdict(ctx)
     mc = cluster.mc_switchover(ctx, which=["MC_Switchover_faults.cfg"] if ctx.quick else ["MC_Switchover_thorough.cfg"])
+    live = cluster.mc_liveness(ctx)
     rows, fails, r = vlib.rows_check(ctx, "internal/app", "^TestVerifC06$", "ReqRows", env={}, timeout=7000,
                                      shards=16, chunk=3000, par=4, hang_ok=True)
     meta = cluster.load_meta(ctx)
@@ -43,7 +44,7 @@ def run(ctx):
         "samples": rows[:2] + rows[-1:],
         "requests_observed": len(rows), "with_success": sum(1 for x in rows if x["success"]),
         "with_rejection": sum(1 for x in rows if x["rejected"]), "with_abort": sum(1 for x in rows if x["opdelete"]),
-        "mc": mc, "exhaustive": True,
+        "mc": mc, "liveness": live, "scenarios_that_never_ended": len(getattr(ctx, "hangs", [])), "exhaustive": True,
     }
     assumptions = ["coordination calls of the manager succeed and it does not crash (C07's subject)",
                    "initiators other than the manager are emulated by direct create-if-absent writes of the key (the CLI's "
